@@ -87,6 +87,7 @@ class Ctx:
         self.known_hits = {}
         self.unreproduced = []
         self.notes = []
+        self.extra_cov = {}
         # replays of earlier runs of this property are stale now
         import glob
 
@@ -136,6 +137,7 @@ class Ctx:
 
     def finish(self, level, coverage, assumptions=()):
         cov = dict(coverage)
+        cov.update(self.extra_cov)
         cov.setdefault("exhaustive", False)
         cov["distinct_violation_signatures"] = len(self.violations)
         cov["known_finding_signatures"] = sorted(self.known_hits)
